@@ -315,6 +315,7 @@ public:
                     return;
                 }
             }
+            if (YK_NOSLEEP()) { continue; }
             std::this_thread::sleep_for(std::chrono::microseconds(1));
         }
     }
